@@ -164,10 +164,14 @@ func forEachBlock(thorough bool, emit func(block)) {
 			emit(block{tmpl: Case{Chan: cb.ch, Style: style, CType: cb.ctype, Set: cb.set, Items: []Item{it}}, vals: [][]string{vals}})
 		}
 	}
+	light := map[string]bool{"plus": true, "u": true, "ref": true, "tok": true, "file-tok": true, "list": true, "cdata": true}
 	for _, cb := range primary {
-		if thorough && (cb.ch == "query" || cb.ch == "urlenc") && cb.style != "plus" {
+		switch {
+		case thorough && (cb.ch == "query" || cb.ch == "urlenc") && cb.style != "plus":
 			one(cb, 2, 3)
-		} else {
+		case !thorough && light[cb.style]:
+			one(cb, 2, 1) // second styles of a channel: every name, values of at most one symbol
+		default:
 			one(cb, 2, 2)
 		}
 	}
